@@ -35,6 +35,7 @@ def determinism(argv):
     n = int(argv[0]) if argv else 2000
     n1 = max(50, n // 8)
     ok = True
+    summary = []
     for sim in ("zone", "scale", "engine", "timeline"):
         t0 = time.monotonic()
         a = _digests(sim, n, 16)
@@ -51,11 +52,17 @@ def determinism(argv):
         print("determinism sim=%s: %d seeds x (16 workers, fresh interpreter PYTHONHASHSEED=4242 / 7 workers), "
               "%d seeds x 1 worker: mismatches %d / %d  [%.0fs]"
               % (sim, n, n1, len(bad_c), len(bad_b), time.monotonic() - t0))
+        summary.append({"sim": sim, "mismatches_fresh_interpreter": len(bad_c), "mismatches_single_worker": len(bad_b)})
         if bad_b or bad_c:
             ok = False
             print("  first diverging run indices:", (bad_b + bad_c)[:10])
         sys.stdout.flush()
     print("DETERMINISM " + ("OK" if ok else "FAILED"))
+    with open(os.path.join(VERIF, "evidence", "selftest_determinism.json"), "w") as f:
+        json.dump({"seeds_per_sim": n, "seeds_single_worker": n1, "ok": ok, "results": summary,
+                   "method": "digest of the full event log per run: 16 workers vs fresh interpreter "
+                             "(PYTHONHASHSEED=4242, 7 workers) vs 1 worker"}, f, indent=1)
+        f.write("\n")
     return 0 if ok else 2
 
 
